@@ -127,3 +127,241 @@ Proof.
   unfold one_of. intros nm a b H. apply orb_true_iff in H.
   destruct H as [H|H]; apply str_eqb_eq in H; auto.
 Qed.
+
+(* ---------- arguments made of literals and escapes ---------- *)
+
+Lemma date_format_plain : forall arg,
+  plain arg = true -> date_format_of (map piece_of arg) = text_of_arg arg.
+Proof.
+  unfold date_format_of, text_of_arg, plain.
+  induction arg as [|a arg IH]; cbn [map flat_map forallb]; [reflexivity|].
+  intros H. apply andb_true_iff in H. destruct H as [Ha H].
+  rewrite (IH H). destruct a; try discriminate; reflexivity.
+Qed.
+
+Lemma mdc_arg_single : forall what arg,
+  single arg = true -> mdc_arg what (map piece_of arg) = inl (text_of_arg arg).
+Proof.
+  intros what [|a [|b r]]; try discriminate; destruct a; try discriminate; intros _; cbn;
+    rewrite ?app_nil_r; reflexivity.
+Qed.
+
+(* ---------- the theorem ---------- *)
+
+Section Meaning.
+  Variable ok : str -> bool.
+  Variable ts : str -> tz -> str.
+  Variable e : env.
+
+  Local Notation encc := (enc_chunk ok ts e).
+  Local Notation mean := (meaning ts e).
+
+  Lemma widths_params : forall sp,
+    widths_ok sp = true ->
+    match p_min (params_of sp), p_max (params_of sp) with
+    | Some m, Some M => m <= M
+    | _, _ => True
+    end.
+  Proof.
+    intros [c fa mn mx]. unfold widths_ok, params_of. cbn.
+    destruct mn, mx; cbn; try exact (fun _ => I). intros H. apply N.leb_le. exact H.
+  Qed.
+
+  Lemma flat_map_encc : forall arg,
+    Forall (fun a => sem_ok ok a = true -> encc (compile ok (piece_of a)) = mean a) arg ->
+    forallb (sem_ok ok) arg = true ->
+    flat_map encc (map (compile ok) (map piece_of arg)) = flat_map mean arg.
+  Proof.
+    induction 1 as [|a arg Ha _ IH]; cbn [map flat_map forallb]; [reflexivity|].
+    intros H. apply andb_true_iff in H. destruct H as [H1 H2].
+    rewrite (Ha H1), (IH H2). reflexivity.
+  Qed.
+
+  (* leaf formatters *)
+  Lemma leaf_case : forall nm k sp,
+    widths_ok sp = true ->
+    leaf_name nm = true ->
+    enc_leaf ok ts e k = chars (leaf_value e nm) ->
+    encc (CLeaf k (params_of sp)) = mean (AFmt nm [] sp).
+  Proof.
+    intros nm k sp Hw Hl Hk. cbn [enc_chunk meaning]. rewrite Hl, Hk.
+    apply fit_eq. apply widths_params. exact Hw.
+  Qed.
+
+  (* group formatters *)
+  Lemma group_case : forall nm g arg sp,
+    widths_ok sp = true ->
+    leaf_name nm = false -> group_name nm = true ->
+    (forall body, enc_group e g body = group_value e nm body) ->
+    Forall (fun a => sem_ok ok a = true -> encc (compile ok (piece_of a)) = mean a) arg ->
+    forallb (sem_ok ok) arg = true ->
+    encc (CGroup g (map (compile ok) (map piece_of arg)) (params_of sp)) = mean (AFmt nm [arg] sp).
+  Proof.
+    intros nm g arg sp Hw Hl Hg Hv IH Hs. cbn [enc_chunk meaning]. rewrite Hl, Hg.
+    rewrite fit_eq by (apply widths_params; exact Hw).
+    f_equal. rewrite Hv. f_equal.
+    change (flat_map encc (map (compile ok) (map piece_of arg)) = flat_map mean arg).
+    apply flat_map_encc; assumption.
+  Qed.
+
+  Lemma date_case : forall nm args sp,
+    nm = LIT "d" \/ nm = LIT "date" ->
+    widths_ok sp = true ->
+    date_args_ok ok args = true ->
+    encc (compile_date ok (map (map piece_of) args) (params_of sp)) = mean (AFmt nm args sp).
+  Proof.
+    intros nm args sp Hn Hw Hd.
+    assert (Hm : mean (AFmt nm args sp) = fit (params_of sp) (chars (date_value ts args))).
+    { destruct Hn as [-> | ->]; reflexivity. }
+    rewrite Hm. clear Hm Hn.
+    unfold date_args_ok, fmt_ok in Hd.
+    destruct args as [|f [|z [|x r]]].
+    - (* {d} *)
+      unfold compile_date. cbn [map length Nat.ltb Nat.leb]. rewrite Hd. cbn [negb nth_error].
+      cbn [enc_chunk enc_leaf]. rewrite Hd.
+      rewrite fit_eq by (apply widths_params; exact Hw). reflexivity.
+    - (* {d(fmt)} *)
+      apply andb_true_iff in Hd. destruct Hd as [Hp Hf].
+      unfold compile_date. cbn [map length Nat.ltb Nat.leb].
+      rewrite (date_format_plain f Hp), Hf. cbn [negb nth_error].
+      cbn [enc_chunk enc_leaf]. rewrite Hf.
+      rewrite fit_eq by (apply widths_params; exact Hw). reflexivity.
+    - (* {d(fmt)(zone)} *)
+      destruct z as [|[zt| |] [|? ?]]; try discriminate.
+      apply andb_true_iff in Hd. destruct Hd as [Hd Hz].
+      apply andb_true_iff in Hd. destruct Hd as [Hp Hf].
+      unfold compile_date. cbn [map length Nat.ltb Nat.leb].
+      rewrite (date_format_plain f Hp), Hf. cbn [negb nth_error piece_of].
+      unfold date_value.
+      destruct (str_eqb zt (LIT "utc")) eqn:Eu.
+      + cbn [enc_chunk enc_leaf]. rewrite Hf.
+        rewrite fit_eq by (apply widths_params; exact Hw). reflexivity.
+      + cbn [orb] in Hz. rewrite Hz.
+        cbn [enc_chunk enc_leaf]. rewrite Hf.
+        rewrite fit_eq by (apply widths_params; exact Hw). reflexivity.
+    - destruct z as [|[zt| |] [|? ?]]; discriminate.
+  Qed.
+
+  Lemma mdc_case : forall nm args sp,
+    nm = LIT "X" \/ nm = LIT "mdc" ->
+    widths_ok sp = true ->
+    mdc_args_ok args = true ->
+    encc (compile_mdc (map (map piece_of) args) (params_of sp)) = mean (AFmt nm args sp).
+  Proof.
+    intros nm args sp Hn Hw Hd.
+    assert (Hm : mean (AFmt nm args sp) = fit (params_of sp) (chars (mdc_value e args))).
+    { destruct Hn as [-> | ->]; reflexivity. }
+    rewrite Hm. clear Hm Hn.
+    unfold mdc_args_ok in Hd.
+    destruct args as [|k [|d [|x r]]]; try discriminate.
+    - unfold compile_mdc. cbn [map length Nat.ltb Nat.leb].
+      rewrite (mdc_arg_single _ k Hd). cbn [nth_error].
+      cbn [enc_chunk enc_leaf].
+      rewrite fit_eq by (apply widths_params; exact Hw). reflexivity.
+    - apply andb_true_iff in Hd. destruct Hd as [Hk Hd].
+      unfold compile_mdc. cbn [map length Nat.ltb Nat.leb].
+      rewrite (mdc_arg_single _ k Hk). cbn [nth_error].
+      rewrite (mdc_arg_single _ d Hd).
+      cbn [enc_chunk enc_leaf].
+      rewrite fit_eq by (apply widths_params; exact Hw). reflexivity.
+  Qed.
+
+  Ltac name_case H :=
+    apply one_of_true in H; destruct H as [-> | ->].
+
+  Theorem encode_pieces_is_meaning : forall a,
+    sem_ok ok a = true -> encc (compile ok (piece_of a)) = mean a.
+  Proof.
+    induction a as [t|c st|nm args sp IH] using ast_ind'; intros Hs; try reflexivity.
+    cbn [piece_of]. rewrite compile_PArg. unfold compile_arg.
+    cbn [sem_ok] in Hs. apply andb_true_iff in Hs. destruct Hs as [Hw Hs].
+    destruct (one_of nm (LIT "d") (LIT "date")) eqn:E1.
+    { assert (Hn := one_of_true _ _ _ E1).
+      assert (Hd : date_args_ok ok args = true) by (destruct Hn as [-> | ->]; exact Hs).
+      apply date_case; assumption. }
+    (* groups *)
+    assert (Hgrp : forall g a b,
+               nm = a \/ nm = b ->
+               leaf_name a = false -> leaf_name b = false ->
+               group_name a = true -> group_name b = true ->
+               (forall body, enc_group e g body = group_value e a body) ->
+               (forall body, enc_group e g body = group_value e b body) ->
+               encc (group_chunk (compile ok) g (map (map piece_of) args) (params_of sp))
+               = mean (AFmt nm args sp)).
+    { intros g a b Hn La Lb Ga Gb Va Vb.
+      assert (Hl : leaf_name nm = false) by (destruct Hn as [-> | ->]; assumption).
+      assert (Hg : group_name nm = true) by (destruct Hn as [-> | ->]; assumption).
+      assert (Hv : forall body, enc_group e g body = group_value e nm body)
+        by (destruct Hn as [-> | ->]; assumption).
+      rewrite Hl, Hg in Hs.
+      destruct args as [|arg [|x r]]; try discriminate.
+      inversion IH as [|? ? IHa _]; subst.
+      cbn [map group_chunk]. apply group_case; assumption. }
+    destruct (one_of nm (LIT "h") (LIT "highlight")) eqn:E2.
+    { apply (Hgrp GHighlight _ _ (one_of_true _ _ _ E2)); try reflexivity. }
+    destruct (one_of nm (LIT "D") (LIT "debug")) eqn:E3.
+    { apply (Hgrp GDebug _ _ (one_of_true _ _ _ E3)); try reflexivity. }
+    destruct (one_of nm (LIT "R") (LIT "release")) eqn:E4.
+    { apply (Hgrp GRelease _ _ (one_of_true _ _ _ E4)); try reflexivity. }
+    (* leaves *)
+    assert (Hleaf : forall k a b,
+               nm = a \/ nm = b ->
+               leaf_name a = true -> leaf_name b = true ->
+               enc_leaf ok ts e k = chars (leaf_value e a) ->
+               enc_leaf ok ts e k = chars (leaf_value e b) ->
+               encc (no_args (map (map piece_of) args) (params_of sp) k) = mean (AFmt nm args sp)).
+    { intros k a b Hn La Lb Va Vb.
+      assert (Hl : leaf_name nm = true) by (destruct Hn as [-> | ->]; assumption).
+      assert (Hv : enc_leaf ok ts e k = chars (leaf_value e nm))
+        by (destruct Hn as [-> | ->]; assumption).
+      rewrite Hl in Hs. destruct args; [|discriminate].
+      cbn [map no_args]. apply leaf_case; assumption. }
+    destruct (one_of nm (LIT "l") (LIT "level")) eqn:E5.
+    { apply (Hleaf KLevel _ _ (one_of_true _ _ _ E5)); reflexivity. }
+    destruct (one_of nm (LIT "m") (LIT "message")) eqn:E6.
+    { apply (Hleaf KMessage _ _ (one_of_true _ _ _ E6)); reflexivity. }
+    destruct (one_of nm (LIT "M") (LIT "module")) eqn:E7.
+    { apply (Hleaf KModule _ _ (one_of_true _ _ _ E7)); reflexivity. }
+    destruct (str_eqb nm (LIT "n")) eqn:E8.
+    { apply str_eqb_eq in E8.
+      apply (Hleaf KNewline (LIT "n") (LIT "n") (or_introl E8)); reflexivity. }
+    destruct (one_of nm (LIT "f") (LIT "file")) eqn:E9.
+    { apply (Hleaf KFile _ _ (one_of_true _ _ _ E9)); reflexivity. }
+    destruct (one_of nm (LIT "L") (LIT "line")) eqn:E10.
+    { apply (Hleaf KLine _ _ (one_of_true _ _ _ E10)); reflexivity. }
+    destruct (one_of nm (LIT "T") (LIT "thread")) eqn:E11.
+    { apply (Hleaf KThread _ _ (one_of_true _ _ _ E11)); reflexivity. }
+    destruct (one_of nm (LIT "I") (LIT "thread_id")) eqn:E12.
+    { apply (Hleaf KThreadId _ _ (one_of_true _ _ _ E12)); reflexivity. }
+    destruct (one_of nm (LIT "P") (LIT "pid")) eqn:E13.
+    { apply (Hleaf KPid _ _ (one_of_true _ _ _ E13)); reflexivity. }
+    destruct (one_of nm (LIT "i") (LIT "tid")) eqn:E14.
+    { apply (Hleaf KSysTid _ _ (one_of_true _ _ _ E14)); reflexivity. }
+    destruct (one_of nm (LIT "t") (LIT "target")) eqn:E15.
+    { apply (Hleaf KTarget _ _ (one_of_true _ _ _ E15)); reflexivity. }
+    destruct (one_of nm (LIT "X") (LIT "mdc")) eqn:E16.
+    { assert (Hn := one_of_true _ _ _ E16).
+      assert (Hd : mdc_args_ok args = true) by (destruct Hn as [-> | ->]; exact Hs).
+      apply mdc_case; assumption. }
+    destruct (str_eqb nm []) eqn:E17.
+    { apply str_eqb_eq in E17.
+      apply (Hgrp GAlign [] [] (or_introl E17)); reflexivity. }
+    (* unknown name: not sem_ok *)
+    exfalso.
+    assert (Hl : leaf_name nm = false).
+    { unfold leaf_name, is_name. rewrite E5, E6, E7, E9, E10, E11, E12, E13, E14, E15.
+      unfold one_of. rewrite E8. reflexivity. }
+    assert (Hg : group_name nm = false).
+    { unfold group_name, is_name. rewrite E2, E3, E4, E17. reflexivity. }
+    rewrite Hl, Hg in Hs. unfold is_name in Hs. rewrite E1, E16 in Hs. discriminate.
+  Qed.
+
+  Theorem encode_seq_is_meaning : forall seq,
+    forallb (sem_ok ok) seq = true ->
+    encode ok ts e (map (compile ok) (map piece_of seq)) = meaning_seq ts e seq.
+  Proof.
+    intros seq H. unfold encode, meaning_seq.
+    apply flat_map_encc; [|exact H].
+    apply Forall_forall. intros a _. apply encode_pieces_is_meaning.
+  Qed.
+End Meaning.
